@@ -191,15 +191,33 @@ func runC06(c *eng.Ctx) {
 			}
 			return false
 		}
-		notSync := g.FactEdge(func(fc eng.Fact) bool { return !fc.Pos && isSyncFact(fc) })
 		if runNode == nil {
 			r6.Unknown(f.Key+" handleRunHook", f.Decl.Pos(), "call not found")
 		} else {
-			execTrue := g.FactEdge(func(fc eng.Fact) bool { return fc.Pos && fc.Y == nil && eng.IsField(info, fc.X, execOnSync) })
-			reach := g.Reach(eng.Query{FromEntry: true, AvoidEdge: func(e *eng.GEdge) bool { return notSync(e) || execTrue(e) }})
+			// assume: the task is a Synchronization and ExecuteOnSynchronization is false. Every edge that contradicts
+			// the assumption (three-valued evaluation of the conditions, flags and named conditions included) is removed;
+			// the hook run must then be unreachable.
+			execAtom := func(fc eng.Fact) bool { return fc.Y == nil && eng.IsField(info, fc.X, execOnSync) }
+			assume1 := func(fc eng.Fact) bool {
+				if isSyncFact(fc) {
+					return fc.Pos
+				}
+				if execAtom(fc) {
+					return !fc.Pos
+				}
+				return false
+			}
+			reach := g.Reach(eng.Query{FromEntry: true, Assume: assume1, AvoidEdge: g.Infeasible(assume1)})
 			r6.Check(!reach[runNode], f.Key+" sync-with-execute=false", runNode.Node.Pos(), "not executed", "a Synchronization of a binding with executeHookOnSynchronization=false can reach handleRunHook")
-			notV0 := g.FactEdge(fieldEqConst(info, version, "v0", false))
-			reach2 := g.Reach(eng.Query{FromEntry: true, AvoidEdge: func(e *eng.GEdge) bool { return notSync(e) || notV0(e) }})
+			isV0 := fieldEqConst(info, version, "v0", true)
+			notV0 := fieldEqConst(info, version, "v0", false)
+			assume2 := func(fc eng.Fact) bool {
+				if isSyncFact(fc) {
+					return fc.Pos
+				}
+				return isV0(fc) && !notV0(fc)
+			}
+			reach2 := g.Reach(eng.Query{FromEntry: true, Assume: assume2, AvoidEdge: g.Infeasible(assume2)})
 			r6.Check(!reach2[runNode], f.Key+" sync-for-v0", runNode.Node.Pos(), "not executed", "a Synchronization can be executed for a configVersion v0 hook")
 		}
 		// R7
